@@ -312,6 +312,21 @@ func (s *csSuite) reserves(denom string) (pool coinswaptypes.Pool, X, Y, L sdkma
 	return
 }
 
+// the chain's registered accounting invariants (x/crisis: bank total supply, module accounts, ...), on the real state
+func (s *csSuite) invariants() {
+	msg := "ok"
+	func() {
+		defer func() {
+			if r := recover(); r != nil {
+				msg = "broken:" + tokenSafe(fmt.Sprint(r))
+			}
+		}()
+		s.w.App.CrisisKeeper.AssertInvariants(s.w.Ctx)
+	}()
+	s.t.Line(fmt.Sprintf("I %d invariants=%s", s.t.seq, msg))
+	s.stat["invariants:"+strings.SplitN(msg, ":", 2)[0]]++
+}
+
 func (s *csSuite) emit(kind, args string, out Outcome, resp string, preMod string, pre Snap) {
 	s.t.seq++
 	post := s.w.Snapshot()
@@ -754,7 +769,11 @@ func runCoinswap(seed uint64, nOps int, outPath string) map[string]int {
 					}
 				}()
 				done++
+				if done%40 == 0 {
+					s.invariants()
+				}
 			}
+			s.invariants()
 		}
 	}
 	return s.stat
